@@ -523,6 +523,20 @@ pub fn tricky_bases() -> Vec<Vec<Vec<Vec<(i64, i64)>>>> {
             vec![(4, 0), (8, 8), (12, 2), (4, 0)],
             vec![(14, 12), (16, 12), (15, 16), (14, 12)],
         ]],
+        // a hole whose leftmost vertex lies on a slanted edge of the shell's upper chain, after that chain has passed a vertex
+        // (a valid touch on the lattice; under the decimal variants of C10 it lies a fraction of an ulp beside the edge)
+        vec![vec![
+            vec![(-5, -5), (15, -5), (8, 9), (0, 1), (-5, -5)],
+            vec![(4, 5), (6, 3), (6, 5), (4, 5)],
+        ]],
+        vec![vec![
+            vec![(-5, -5), (15, -5), (5, 10), (0, 0), (-5, -5)],
+            vec![(2, 4), (4, 2), (4, 4), (2, 4)],
+        ]],
+        vec![vec![
+            vec![(-4, -6), (16, -6), (10, 5), (0, 0), (-4, -6)],
+            vec![(4, 2), (6, 0), (6, 2), (4, 2)],
+        ]],
         vec![vec![
             // spiral
             vec![(0, 0), (10, 0), (10, 10), (2, 10), (2, 4), (6, 4), (6, 6), (4, 6), (4, 8), (8, 8), (8, 2), (0, 2), (0, 0)],
